@@ -44,6 +44,19 @@ def cases(tier, seed):
                     # without --buffer the runner never touches the streams
                     continue
                 yield [list(sub), e]
+    # the same from a state that is not the interpreter's default one: gc
+    # debug flags and thresholds set by the embedding application, an extra
+    # warnings filter (restoring "the defaults" is not restoring)
+    for k in (0, 1, 2):
+        for sub in itertools.combinations(OPTS, k):
+            if 'prof' in sub and 'profbr' in sub:
+                continue
+            for e in ENDS:
+                if e in ('leave_replaced', 'close_out') and 'buf' not in sub:
+                    continue
+                if k == 2 and e not in ('normal', 'fail', 'kbint', 'x'):
+                    continue
+                yield [list(sub), e, 'pre']
 
 
 def setup_worker():
@@ -116,6 +129,26 @@ HISTORY_MAX = 13
 
 
 def run_case(case):
+    if len(case) > 2 and case[2] == 'pre':
+        import gc
+        import warnings
+        saved = (gc.get_debug(), gc.get_threshold(), list(warnings.filters))
+        gc.set_debug(gc.DEBUG_UNCOLLECTABLE)
+        gc.set_threshold(701, 11, 9)
+        warnings.filterwarnings('ignore', message='vt pre-state filter')
+        try:
+            r = run_case(case[:2])
+        finally:
+            gc.set_debug(saved[0])
+            gc.set_threshold(*saved[1])
+            warnings.filters[:] = saved[2]
+            if hasattr(warnings, '_filters_mutated'):
+                warnings._filters_mutated()
+        for v in r['violations']:
+            v['sig'] = dict(v['sig'], pre=True)
+            v['detail'] = '(run started with gc debug flags DEBUG_UNCOLLECTABLE, thresholds (701, 11, 9), one extra warnings filter)\n' + v['detail']
+        r['outcome'] = ('pre',) + tuple(r['outcome'])
+        return r
     sub, end = case
     shutil.rmtree(WD, ignore_errors=True)
     os.makedirs(WD)
